@@ -164,7 +164,8 @@ theorem parse_iso (y m d h mi s : Nat) (hy : y < 10000) (hm : m < 100) (hd : d <
   unfold parseCs
   rw [scan_iso _ (by simp [pad_lengths]) y m d h mi s [] ndh_nil, scan_nil]
   rw [val_pad4 y hy, val_pad2 m hm, val_pad2 d hd, val_pad2 h (by omega), val_pad2 mi (by omega), val_pad2 s (by omega)]
-  simp [parseTokens, parseTime, mk, hh, hmi, hs]
+  have hdash : isDateSep '-' = true := by decide
+  simp [parseTokens, parseTime, mk, hh, hmi, hs, hdash]
 
 /-- `yyyy-mm-ddTHH:MM:SS.ffffff` is read back as its fields -/
 theorem parse_iso_frac (y m d h mi s us : Nat) (hy : y < 10000) (hm : m < 100) (hd : d < 100) (hh : h < 24) (hmi : mi < 60)
@@ -174,7 +175,8 @@ theorem parse_iso_frac (y m d h mi s us : Nat) (hy : y < 10000) (hm : m < 100) (
   unfold parseCs
   rw [scan_iso _ (by simp [pad_lengths]) y m d h mi s _ (ndh_cons _ _ (by decide)), scan_frac _ (by simp [pad_lengths])]
   rw [val_pad4 y hy, val_pad2 m hm, val_pad2 d hd, val_pad2 h (by omega), val_pad2 mi (by omega), val_pad2 s (by omega), val_pad6 us hus]
-  simp [parseTokens, parseTime, mk, hh, hmi, hs]
+  have hdash : isDateSep '-' = true := by decide
+  simp [parseTokens, parseTime, mk, hh, hmi, hs, hdash]
 
 open Pyg.Greg in
 /-- a non-ambiguous reading of a calendar date: both dialects return date + time of day -/
